@@ -94,6 +94,7 @@ class SrvExec(Exec):
         self.released = set()
         self.state = {'stop': False, 'ncalls': 0}
         self.oracles = set(cfg.get('oracles', ['answers', 'shutdown']))
+        self.ens_details = {}
 
     # ------------------------------------------------------------------ workers
     def worker_cls(self, tag, batch=0):
@@ -187,6 +188,16 @@ class SrvExec(Exec):
 
         if topo == 'single':
             y = stage('A', x)
+        elif topo == 'batch':
+            if x in pre.get('A', ()):
+                return norm_val(Boom('preA', x))
+            # exactly the members of the failing call() invocation fail (invocations are recorded by the worker)
+            mine = [inv for tag, inv in self.invocations if x in inv]
+            if len(mine) != 1:
+                return ('BAD-BATCHING', tuple(mine))
+            if any(v in fail.get('A', ()) for v in mine[0]):
+                return norm_val(Boom('A', tuple(mine[0])))
+            return ('A', x)
         elif topo == 'seq':
             y = stage('A', x)
             if not isinstance(y, Boom):
@@ -229,7 +240,7 @@ class SrvExec(Exec):
             c = s.choose(nopt, 'release')
             if c >= len(self.waiting):
                 snap = st['ncalls']
-                r = s.block(lambda: st['ncalls'] != snap or st['stop'], 1.0, on='env-wait')
+                r = s.block(lambda: st['ncalls'] != snap or st['stop'], cfg.get('env_wait_t', 1.0), on='env-wait')
                 can_wait = r != 'timeout' and not st['stop']
                 continue
             can_wait = True
@@ -251,6 +262,8 @@ class SrvExec(Exec):
             return (x, ('BACKLOGFULL', e.args[1] is None), None, t0, s.now)
         except Exception as e:
             tb = ''.join(traceback.format_exception(type(e), e, e.__traceback__))
+            if type(e).__name__ == 'EnsembleError':
+                self.ens_details[x] = norm_val(e.args[1]['y'])
             return (x, norm_exc(e), tb, t0, s.now)
 
     def body(self):
@@ -423,6 +436,16 @@ class SrvExec(Exec):
         if 'answers' in orc or 'errors' in orc or 'timeouts' in orc:
             if got != want:
                 return ('wrong-answer', f'call({x}) -> {got}, expected {want}')
+            if 'errors' in orc and got[0] == 'EXC' and got[1] == 'EnsembleError':
+                # members recorded in the error are this request's own member outcomes (None = not yet reported)
+                fail = {k: set(v) for k, v in cfg.get('fail', {}).items()}
+                own = [norm_val(Boom(t, x)) if x in fail.get(t, ()) else (t, x) for t in ('A', 'B')]
+                ys = self.ens_details.get(x)
+                if ys is None or len(ys) != 2 or any(y is not None and y != o for y, o in zip(ys, own)) \
+                        or not any(y is not None and y[0] == 'EXC' for y in ys):
+                    return ('ensemble-error-wrong-members', f'call({x}) EnsembleError carries {ys}, own member outcomes {own}')
+                if not cfg.get('fail_fast', True) and any(y is None for y in ys):
+                    return ('ensemble-error-incomplete', f'call({x}) without fail_fast carries {ys}')
             if 'errors' in orc and got[0] == 'EXC' and got[1] == 'Boom':
                 if not tb or ('in call' not in tb and 'in preprocess' not in tb):
                     return ('traceback-lost', f'call({x}) raised {got} without the traceback of the failure site: {tb!r}')
